@@ -386,8 +386,9 @@ def PixR.contains (r : PixR α) (p : Pt α) : Bool := r.toPReg.contains p
 
 /-- `SkyRegion.contains(skycoord, wcs)`:
 circle, ellipse, rectangle, polygon, the annuli (base class): `self.to_pixel(wcs).contains(PixCoord.from_sky(skycoord, wcs))`;
-`PointSkyRegion` / `LineSkyRegion` (and `TextSkyRegion`, a subclass of the point) override it:
-`return not self.meta.get('include', True)` — no conversion at all;
+`PointSkyRegion` / `LineSkyRegion` (and `TextSkyRegion`, a subclass of the point) override it without any
+conversion: `in_reg = False` (or an array of `False`), returned as is or negated when excluded — per position
+`not include`;
 `CompoundSkyRegion.contains`: `operator(region1.contains(…), region2.contains(…))`, negated
 unless `self.meta.get('include', True)`. -/
 def SkyR.contains (w : Wcs Sky α) : SkyR Sky α → Sky → Bool
@@ -410,11 +411,14 @@ end field
 /-! ### shape of the answer of `contains` (scalar / array positions)
 
 `none` = one scalar answer, `some dims` = an array of that shape (`Impl.QShape`).  The pixel classes
-answer in the shape of the queried coordinates (`Impl.resultShape`, C01).  On the sky side the
-point / line / text overrides return ONE Python bool whatever was asked; the base class answers through
-the pixel image, i.e. in the shape of the positions; the compound combines its components' answers
-with a numpy-broadcasting operator (scalar ∘ scalar = scalar, anything with an array = the array's
-shape; both arrays have the shape of the positions). -/
+answer in the shape of the queried coordinates (`Impl.resultShape`, C01).  On the sky side the base
+class answers through the pixel image, i.e. in the shape of the positions; the point / line / text
+overrides answer `False if skycoord.isscalar else np.zeros(skycoord.shape, dtype=bool)` (negated when
+excluded) — in the shape of the positions too, since the repair b532b53 (finding F203).  Before it they
+returned ONE Python bool whatever was asked: the switch `emptyScalar = true` is that unrepaired variant,
+kept so that the refutation of the shape clause stays a checked theorem.  The compound combines its
+components' answers with a numpy-broadcasting operator (scalar ∘ scalar = scalar, anything with an array =
+the array's shape; both arrays have the shape of the positions). -/
 
 section shape
 variable {Sky α : Type}
@@ -425,15 +429,19 @@ def SkyR.hasSized : SkyR Sky α → Bool
   | .compound _ a b _ _ => a.hasSized || b.hasSized
   | _ => true
 
-/-- shape of `SkyRegion.contains(skycoord, wcs)` for positions of shape `q`. -/
-def SkyR.containsShape : SkyR Sky α → QShape → QShape
-  | .point .., _ | .line .., _ | .text .., _ => none
+/-- shape of `SkyRegion.contains(skycoord, wcs)` for positions of shape `q`; `emptyScalar` selects the
+unrepaired point / line / text overrides (`return not self.meta.get('include', True)`). -/
+def SkyR.containsShapeV (emptyScalar : Bool) : SkyR Sky α → QShape → QShape
+  | .point .., q | .line .., q | .text .., q => if emptyScalar then none else q
   | .compound _ a b _ _, q =>
-    match a.containsShape q, b.containsShape q with
+    match a.containsShapeV emptyScalar q, b.containsShapeV emptyScalar q with
     | none, none => none
     | some d, _ => some d
     | none, some d => some d
   | _, q => q
+
+/-- the current code. -/
+def SkyR.containsShape (r : SkyR Sky α) (q : QShape) : QShape := r.containsShapeV false q
 
 end shape
 
